@@ -16,7 +16,18 @@ Part C (histories)     explicit-state search (vf.run.bfs) over the operation
                        R = regroup} with the enabling rule of `_do_iter` for
                        the regroup modes never / once / every.
 
-Only the data sources of the optimiser are synthetic (`_get_power` is
+Part D (real input)    DASSH_Input -> Orificing.__init__ -> real group_by_power
+                       (_get_power, Reactor, user power CSV) -> real
+                       run_parametric on its recycle branch (tables written
+                       by the harness) -> distribute, for two assembly types
+                       on a 7-position core: interleaved / block layouts x
+                       listing order x (lo, hi) power pairs x pressure limit.
+
+Previous results in parts B and C cover one and two time steps (row blocks
+as _get_dassh_results stacks them); the required total stays Q/(cp dT) of the
+time-averaged power, computed in the harness.
+
+In parts A-C only the data sources of the optimiser are synthetic (`_get_power` is
 replaced by a stub that publishes the generated powers; the parametric sweep
 table and the "DASSH sweep" that produces previous results are closed-form
 strictly monotone curves).  Everything that decides is the real dassh code.
@@ -80,9 +91,11 @@ def _t_opt(t, x_w_per_kgs, cp):
     return T_IN + _peaking(t) * rise * (1.0 + 0.2 * x_w_per_kgs / 1.0e6)
 
 
-def _dp(t, m):
-    """pressure drop (Pa) of type t at flow m (kg/s); strictly increasing"""
-    return (1.0e5, 1.3e5)[t] * m ** 1.8
+def _dp(t, m, steep=False):
+    """pressure drop (Pa) of type t at flow m (kg/s); strictly increasing.
+    steep: type 1 reaches a given pressure drop at half the flow of type 0"""
+    k = (1.0e5, 3.5e5) if steep else (1.0e5, 1.3e5)
+    return k[t] * m ** 1.8
 
 
 def _hot(i):
@@ -99,26 +112,35 @@ def type_of(i, n_types, pattern):
     return i % 2                      # 'alt'
 
 
-def parametric_table(t, p_avg, cp):
+def parametric_table(t, p_avg, cp, steep=False):
     """same layout as Orificing.run_parametric: power/flow (MW per kg/s),
     power (W), flow (kg/s), pressure drop (Pa), T_opt (K)"""
     d = np.zeros((N_PTS, 5))
     d[:, 0] = np.geomspace(0.05, 1.0, N_PTS)
     d[:, 1] = p_avg
     d[:, 2] = p_avg / 1e6 / d[:, 0]
-    d[:, 3] = [_dp(t, m) for m in d[:, 2]]
+    d[:, 3] = [_dp(t, m, steep) for m in d[:, 2]]
     d[:, 4] = [_t_opt(t, x * 1e6, cp) for x in d[:, 0]]
     return d
 
 
-def sweep(powers, types, m, cp):
-    """synthetic stand-in for run_dassh_orifice + _get_dassh_results: one
-    timestep, columns as Orificing._read_dassh_results"""
+STEP_FACTORS = {1: (1.0,), 2: (1.03, 0.97)}   # power of a time step / mean power
+
+
+def sweep(powers, types, m, cp, n_steps=1):
+    """synthetic stand-in for run_dassh_orifice + _get_dassh_results: columns
+    as Orificing._read_dassh_results, one block of rows (one row per
+    assembly) per time step, blocks stacked like _get_dassh_results does.
+    Every time step carries the same flows; the assembly powers of the time
+    steps differ and average to `powers` (what _get_power publishes)."""
     rows = []
-    for i, (p, t, mi) in enumerate(zip(powers, types, m)):
-        tb = T_IN + p / (cp * mi)
-        to = T_IN + (_t_opt(t, p / mi, cp) - T_IN) * _hot(i)
-        rows.append([0.0, float(i), p, mi, tb, to, to, to, to, to, to])
+    for s, f in enumerate(STEP_FACTORS[n_steps]):
+        label = 0.0 if n_steps == 1 else float(s + 1)
+        for i, (p, t, mi) in enumerate(zip(powers, types, m)):
+            ps = p * f
+            tb = T_IN + ps / (cp * mi)
+            to = T_IN + (_t_opt(t, ps / mi, cp) - T_IN) * _hot(i)
+            rows.append([label, float(i), ps, mi, tb, to, to, to, to, to, to])
     return np.array(rows, dtype=float)
 
 
@@ -456,12 +478,12 @@ def cases_b(groupings, tier):
             for lim in ('none', 'loose', 'one', 'all'):
                 if lim == 'one' and k < 2:
                     continue          # with one group 'one' and 'all' coincide
-                for prev in ('none', 'synthetic'):
+                for (prev, steps) in (('none', 0), ('synthetic', 1), ('synthetic', 2)):
                     for opt in (('peak coolant temp', 'peak fuel temp')
                                 if tier == 'thorough' else ('peak coolant temp',)):
                         out.append({'values': vals, 'n': n, 'groups': groups, 'n_groups': k,
                                     'types': nt, 'pattern': pat, 'limit': lim, 'prev': prev,
-                                    'opt': opt})
+                                    'steps': steps, 'opt': opt})
     return out
 
 
@@ -487,7 +509,7 @@ def run_distribute(c):
             mem = [pw[i] for i in range(n) if groups[i] == g]
             gm.append(sum(mem) / len(mem))
         m_prev = [1.1 * m_total * x / sum(gm) for x in gm]
-        res_prev = sweep(pw, types, m_prev, cp)
+        res_prev = sweep(pw, types, m_prev, cp, c.get('steps') or 1)
         t_prev = bulk_outlet(res_prev)
     r['states'] = 1
     r['traces'] = 1
@@ -549,10 +571,16 @@ def cases_c(groupings, tier):
                     for nt, pat in ((1, 'one'), (2, 'alt')):
                         if tier == 'quick' and nt == 2 and n < 4:
                             continue
-                        out.append({'values': vals, 'n': n, 'groups': groups, 'n_groups': k,
-                                    'mode': mode, 'limit': lim, 'rtol': rt, 'types': nt,
-                                    'pattern': pat,
-                                    'depth': 5 if tier == 'thorough' else 3})
+                        for steps in (1, 2):
+                            # previous sweeps with two time steps: quick only
+                            # for the unlimited default-tolerance histories
+                            if tier == 'quick' and steps == 2 and not (
+                                    lim == 'none' and rt == [0.05, 0.05]):
+                                continue
+                            out.append({'values': vals, 'n': n, 'groups': groups, 'n_groups': k,
+                                        'mode': mode, 'limit': lim, 'rtol': rt, 'types': nt,
+                                        'pattern': pat, 'steps': steps,
+                                        'depth': 5 if tier == 'thorough' else 3})
     return out
 
 
@@ -566,6 +594,7 @@ def run_history(c):
     g0 = tuple(int(g) for g in c['groups'])
     dp_lim = limit_setup(c['limit'], pw, list(g0), k, m_total)
     mode = c['mode']
+    n_steps = c.get('steps') or 1
     site_d, site_r = 'orificing.py:distribute', 'orificing.py:regroup'
     count = {'D': 0, 'R': 0, 'moved': 0, 'exit': 0, 'nonpositive': 0}
     holder = {}
@@ -592,7 +621,7 @@ def run_history(c):
         t['problems'] = []
         if ev == 'D':
             count['D'] += 1
-            data = sweep(pw, types, s['m'], cp) if s['m'] is not None else None
+            data = sweep(pw, types, s['m'], cp, n_steps) if s['m'] is not None else None
             t_out = bulk_outlet(data) if data is not None else None
             try:
                 m, _ = o.distribute(data, t_out)
@@ -619,7 +648,7 @@ def run_history(c):
                 count['nonpositive'] += 1
         else:
             count['R'] += 1
-            data = sweep(pw, types, s['m'], cp)
+            data = sweep(pw, types, s['m'], cp, n_steps)
             try:
                 o.regroup(data, verbose=False)
             except SystemExit:
@@ -677,6 +706,152 @@ def run_history(c):
 
 
 # ----------------------------------------------------------------------
+# Part D: the real input path (DASSH_Input -> Orificing.__init__ ->
+# group_by_power with the real _get_power / Reactor -> run_parametric on its
+# recycle branch -> distribute) for two assembly types on a 7-position core
+D_NAMES = ('fa', 'fb')          # type index 0 / 1 of the synthetic curves
+D_PATTERNS = {'bab': ['fb', 'fa', 'fb', 'fa', 'fb', 'fa', 'fb'],     # interleaved, hot ids 0,2 tight
+              'aba': ['fa', 'fb', 'fa', 'fb', 'fa', 'fb', 'fa'],     # interleaved, hot ids 0,2 loose
+              'block': ['fa', 'fa', 'fa', 'fb', 'fb', 'fb', 'fb']}   # id order == type-block order
+D_LAYOUTS = {'h02': (0, 2), 'h135': (1, 3, 5), 'h6': (6,)}           # ids of the high-power assemblies
+D_LEN = 0.5
+
+
+def cases_d(tier):
+    out = []
+    pairs = [(lo, hi) for lo in VALUES for hi in VALUES if lo < hi]
+    layouts = ('h02', 'h135', 'h6') if tier == 'thorough' else ('h02', 'h135')
+    limits = ('none', 'tight', 'loose') if tier == 'thorough' else ('none', 'tight')
+    for (lo, hi) in pairs:
+        for lay in layouts:
+            vals = [hi if i in D_LAYOUTS[lay] else lo for i in range(7)]
+            # (pattern, order in which the types are listed in assemblies_to_group)
+            for pat, order in (('bab', 'ab'), ('aba', 'ab'), ('block', 'ab'), ('block', 'ba')) + \
+                    ((('bab', 'ba'), ('aba', 'ba')) if tier == 'thorough' else ()):
+                for lim in limits:
+                    for k in ((1, 2, 3) if tier == 'thorough' else (1, 2)):
+                        out.append({'values': vals, 'n': 7, 'lo': lo, 'hi': hi, 'layout': lay,
+                                    'pattern': pat, 'order': order, 'limit': lim, 'n_groups': k})
+    return out
+
+
+def run_real(c):
+    import os
+    import dassh
+    from .. import scenario as S
+    r = new_result()
+    V = r['violations']
+    vals, k = c['values'], c['n_groups']
+    n = len(vals)
+    cp = _cp()
+    pw = powers_of(vals)
+    m_total = sum(pw) / (cp * (T_BULK - T_IN))
+    tnames = D_PATTERNS[c['pattern']]
+    names = list(D_NAMES) if c['order'] == 'ab' else list(D_NAMES)[::-1]
+    curve = [D_NAMES.index(t) for t in tnames]       # synthetic curve of every assembly (own type)
+    # pressure limit: flow target on the curve of the steep type (fb)
+    q_max = m_total * max(pw) / sum(pw)
+    dp_lim = {'none': None, 'tight': _dp(1, 0.8 * q_max, True) / 1e6,
+              'loose': _dp(1, 2.0 * q_max, True) / 1e6}[c['limit']]
+    dsn = S.design(2)
+    npin = S.n_pins(2)
+    orif = {'assemblies_to_group': names, 'n_groups': k,
+            'value_to_optimize': 'peak coolant temp', 'bulk_coolant_temp': T_BULK,
+            'convergence_tol': 0.002, 'iteration_limit': 2, 'recycle_results': True}
+    if dp_lim is not None:
+        orif['pressure_drop_limit'] = dp_lim
+    scn = {'setup': {'log_progress': 0, 'calc_energy_balance': False},
+           'core': {'inlet': T_IN, 'length': D_LEN, 'coolant': COOLANT, 'gap_model': 'no_flow',
+                    'pitch': round(max(dsn['duct_ftf']) + 0.004, 9)},
+           'types': {nm: dict(dsn) for nm in D_NAMES},
+           'assign': [[t, rg, ps, {'flowrate': 1.0}]
+                      for t, (rg, ps) in zip(tnames, S.core_positions(2))],
+           'power': {'asm': {str(i + 1): {'rings': 2, 'cells': [0.0, D_LEN], 'pins': 'uniform',
+                                          'q': pw[i] / npin / D_LEN} for i in range(n)}},
+           'orificing': orif}
+    site = 'orificing.py:run_parametric'
+    r['states'] = 1
+    r['traces'] = 1
+    r['nontrivial'] = True
+    with S.Built(scn) as b:
+        # the recycled single-assembly sweeps; table of type t built from its own curve
+        tabs = {}
+        os.makedirs(os.path.join(b.dir, '_parametric'), exist_ok=True)
+        for nm in D_NAMES:
+            t = D_NAMES.index(nm)
+            mem = [pw[i] for i in range(n) if tnames[i] == nm]
+            tabs[t] = parametric_table(t, sum(mem) / len(mem), cp, steep=True)
+            np.savetxt(os.path.join(b.dir, '_parametric', 'data_%s.csv' % nm), tabs[t],
+                       delimiter=',')
+        try:
+            o = dassh.Orificing(b.inp())
+            o.group_by_power()
+        except SystemExit:
+            r['outcome'] = 'exit-grouping'
+            return r
+        r['transitions'] += 1
+        gd = np.asarray(o.group_data, dtype=float)
+        if gd.shape != (n, 3) or [float(x) for x in gd[:, 0]] != [float(i) for i in range(n)] \
+                or max(abs(gd[i, 1] - pw[i]) for i in range(n)) > 1e-9 * max(pw):
+            V.append(violation('assembly-lost', c, 'group_data of the real path is not one row per '
+                               'assembly (id order, own power)', gd.tolist(), pw,
+                               site='orificing.py:_group'))
+            r['outcome'] = 'malformed'
+            return r
+        groups = [float(x) for x in gd[:, 2]]
+        for (kind, what, obs, exp) in partition_problems(groups, k):
+            V.append(violation(kind, c, what, obs, exp, site='orificing.py:_group'))
+        if V:
+            r['outcome'] = V[0]['kind']
+            return r
+        groups = [int(x) for x in groups]
+        try:
+            o.run_parametric()
+        except SystemExit:
+            r['outcome'] = 'exit-parametric'
+            return r
+        r['transitions'] += 1
+        # (a) the type look-up table pairs every assembly id, in id order, with ITS type
+        want = [[i, names.index(tnames[i])] for i in range(n)]
+        got = np.asarray(o._parametric['asm_ids']).tolist()
+        if got != want or list(o._parametric['asm_names']) != names:
+            V.append(violation('type-lookup', c, "_parametric['asm_ids'] does not pair every assembly "
+                               'id (in id order) with the index of its own type', got, want,
+                               site=site))
+        # the tables it loaded are the ones written, in the order of the names
+        for j, nm in enumerate(names):
+            if not np.array_equal(np.asarray(o._parametric['data'][j]), tabs[D_NAMES.index(nm)]):
+                V.append(violation('parametric-table', c, 'recycled table %d is not the table of %s'
+                                   % (j, nm), site=site))
+        # (b) the clauses of the property, every assembly judged on its OWN curve
+        m_lim = None
+        if dp_lim is not None:
+            m_lim = limit_flows(dp_lim, [tabs[0], tabs[1]])
+        try:
+            m, _ = o.distribute()
+        except SystemExit:
+            r['outcome'] = 'exit'
+            r['transitions'] += 1
+            if V:
+                r['outcome'] = V[0]['kind']
+            return r
+        except Exception as e:
+            V.append(violation('distribute-exception', c, '%s: %s' % (type(e).__name__, str(e)[:200]),
+                               site=site_of(e)))
+            r['outcome'] = 'EXC'
+            return r
+        r['transitions'] += 1
+        m = [float(x) for x in np.asarray(m, dtype=float)]
+        for (kind, what, obs, exp, tol) in flow_problems(m, groups, k, curve, m_total, m_lim):
+            V.append(violation(kind, c, what, obs, exp, tol, site='orificing.py:distribute'))
+        capped = bool(np.any(o._dp_limit))
+        r['outcome'] = V[0]['kind'] if V else ('ok-capped' if capped else 'ok')
+        r['info'] = {'groups': groups, 'm': m, 'm_lim': m_lim, 'types': tnames, 'names': names}
+    return r
+
+
+
+# ----------------------------------------------------------------------
 def main(run):
     run.rule = ('A: every multiset (size 1..6 quick / 1..7 thorough, repetition allowed) over the '
                 'values {1,1.02,1.1,1.5,2,4} x requested groups 1..N x (cutoff,delta) pairs; '
@@ -685,7 +860,11 @@ def main(run):
                 'B: every distinct (multiset, assignment) that part A returned with N<=3 (4 thorough) '
                 'x assembly types x limit mode x previous results; each is a distinct input. '
                 'C: one breadth-first search per (grouping N in 2..4, regroup mode, limit, regroup '
-                'tolerances, types); non-trivial when at least one real transition was taken.')
+                'tolerances, types, 1|2 time steps in the previous sweep); non-trivial when at least '
+                'one real transition was taken. '
+                'D: real input file path for 7 assemblies of two types: every (lo<hi) value pair x '
+                'layout of the hot assemblies x type pattern (interleaved bab/aba, block) x listing '
+                'order x limit x requested groups; each is a distinct input.')
     run.assumptions = [
         'dassh.Material(sodium_se2anl_425).heat_capacity (constant) is the cp of Q/(cp dT)',
         'the parametric sweep table and the sweep that yields previous results are synthetic '
@@ -740,6 +919,20 @@ def main(run):
             part='histories'))
     run.notes['distribution_cases'] = len(cb)
     run.notes['history_searches'] = len(cc)
+    cd = cases_d(run.tier)
+    rd = run.explore('real-input', cd, run_real, budget_s=120)
+    out_d = {}
+    for c, r in zip(cd, rd):
+        out_d[r['outcome']] = out_d.get(r['outcome'], 0) + 1
+    run.notes['real_input_cases'] = len(cd)
+    # vacuity: interleaved types must have been distributed with an active limit
+    n_capped = sum(1 for c, r in zip(cd, rd) if r['outcome'] == 'ok-capped'
+                   and c['pattern'] in ('bab', 'aba'))
+    if not out_d.get('ok') or not n_capped or not out_d.get('exit'):
+        run.violations.append(dict(violation(
+            'vacuous-alphabet', {'part': 'real-input'},
+            'real-input alphabet did not reach unconstrained, capped (interleaved types) and '
+            'error outcomes', out_d, None), part='real-input'))
 
 
 def replay(body):
@@ -748,7 +941,8 @@ def replay(body):
         print('VIOLATION property=C20 replay=(inline) kind=vacuous-alphabet %s observed=%s (cross-case '
               'check, rerun the tier to re-evaluate)' % (body.get('what'), body.get('observed')))
         return 1
-    fn = {'grouping': run_group, 'distribution': run_distribute, 'histories': run_history}.get(part)
+    fn = {'grouping': run_group, 'distribution': run_distribute, 'histories': run_history,
+          'real-input': run_real}.get(part)
     if fn is None:
         print('no replay for part', part)
         return 1
